@@ -57,10 +57,17 @@ fn execute(case: &Case, sched_bytes: &[u8], explicit: Option<Vec<(u64, usize)>>)
                 Ok(()) => events.lock().unwrap().push(Ev::SetEnd(i, Ok(()))),
                 Err(e) => {
                     let back = e.into_inner();
-                    returned.lock().unwrap().push((i, dc.load(Ordering::SeqCst)));
+                    let already = dc.load(Ordering::SeqCst);
+                    returned.lock().unwrap().push((i, already));
                     events.lock().unwrap().push(Ev::SetEnd(i, Err(back.id)));
                     sched::point("c02.before_drop_of_rejected");
-                    drop(back);
+                    if already != 0 {
+                        // the library already ran this recorder's destructor: dropping the bit-copy again would
+                        // corrupt the heap before the oracle can report it
+                        std::mem::forget(back);
+                    } else {
+                        drop(back);
+                    }
                 }
             }
         }));
@@ -404,7 +411,11 @@ pub fn child(seed: u64) -> i32 {
                     let back = e.into_inner();
                     let d = dc.load(Ordering::SeqCst);
                     results.lock().unwrap().push((i, false, back.id, d));
-                    drop(back);
+                    if d != 0 {
+                        std::mem::forget(back);
+                    } else {
+                        drop(back);
+                    }
                 }
             }
         }));
